@@ -1,6 +1,7 @@
 package main
 
 import (
+	"encoding/json"
 	"fmt"
 	"os"
 	"path/filepath"
@@ -59,9 +60,9 @@ func selftest(p *propDef) int {
 			bad++
 			continue
 		}
-		events += len(o.logs[0])
+		events += len(o.logs[0]) + len(canon(o.res[0]))
 		for k := 1; k < 3; k++ {
-			if string(o.logs[k]) != string(o.logs[0]) || o.res[k].LogHash != o.res[0].LogHash || o.res[k].Status != o.res[0].Status ||
+			if canon(o.res[k]) != canon(o.res[0]) || string(o.logs[k]) != string(o.logs[0]) || o.res[k].LogHash != o.res[0].LogHash || o.res[k].Status != o.res[0].Status ||
 				o.res[k].Steps != o.res[0].Steps || o.res[k].ConflictSig != o.res[0].ConflictSig || len(o.res[k].Decisions) != len(o.res[0].Decisions) {
 				fmt.Printf("selftest: run %d differs between repetition 0 and %d (log %d vs %d bytes, hash %s vs %s)\n", i, k, len(o.logs[0]), len(o.logs[k]), o.res[0].LogHash, o.res[k].LogHash)
 				bad++
@@ -73,6 +74,14 @@ func selftest(p *propDef) int {
 		fmt.Printf("selftest: %d of %d seeds NOT deterministic\n", bad, n)
 		return 2
 	}
-	fmt.Printf("selftest: %s: %d seeds x 3 repetitions (GOMAXPROCS 1/4/16, %d at a time) identical; %d bytes of event log compared\n", p.id, n, runtime.NumCPU(), events)
+	fmt.Printf("selftest: %s: %d seeds x 3 repetitions (GOMAXPROCS 1/4/16, %d at a time) identical; %d bytes of event log and result compared\n", p.id, n, runtime.NumCPU(), events)
 	return 0
+}
+
+// canon renders a worker result without its wall-clock measurements.
+func canon(r *spec.Result) string {
+	c := *r
+	c.RunMs, c.OracleMs = 0, 0
+	b, _ := json.Marshal(&c)
+	return string(b)
 }
